@@ -556,6 +556,13 @@ func runRead(r *core.Run, db, typ string, pol policyCase, binaryFmt bool, blobs 
 			checkCiphertext(r, db, typ, binaryFmt, got, wire, blob)
 		}
 	}
+	// PostgreSQL text values that merely look like bytea hex ("\\x" + non-hex) or are the empty bytea ("\\x")
+	if db == "pg" && !binaryFmt {
+		for _, w := range [][]byte{[]byte("\\xZZ"), []byte("\\x4"), []byte("\\x")} {
+			r.Begin(line("none", w), true, "stream:boundary", "read:"+db, "reader:nokeys-lookalike", "type:"+typ)
+			r.Do(line("none", w))
+		}
+	}
 	// plain stored values that parse under the declared type are delivered as that type
 	if typ == "int32" || typ == "int64" {
 		for _, p := range storedPlain {
